@@ -70,7 +70,7 @@ CHECKS = {
    ref="DESIGN.md section 3, C13"),
  "C14": dict(
    technique="property-based testing / fuzzing (proptest) + bounded-exhaustive enumeration, in worker processes with abort attribution",
-   text="Robustness fuzzing with a result-shape oracle: generated Unicode strings, token soups, character- and token-damaged sentences, every token string up to length 4/5, unbalanced brackets, truncated sentences and scoping-valid ill-typed programs go through tokenize / parse / type_check under catch_unwind in worker processes (a stack overflow or hang is attributed to the announced case); files of arbitrary bytes (invalid UTF-8, empty, damaged programs, nesting to 1000) go through `gram check`. No panic; Ok or a non-empty list of [Error] diagnostics; CLI exit 0 + `Elaborated term:` + empty stderr, or exit 1 + empty stdout + [Error]. Sampled except for the short token strings.",
+   text="Robustness fuzzing with a result-shape oracle: generated Unicode strings, token soups, character- and token-damaged sentences, every token string up to length 4/5, unbalanced brackets, truncated sentences and scoping-valid ill-typed programs go through tokenize / parse / type_check under catch_unwind in worker processes (a stack overflow or hang is attributed to the announced case); files of arbitrary bytes (invalid UTF-8, empty, damaged programs, nesting to 1000) go through `gram check`. No panic; Ok or a non-empty list of [Error] diagnostics; CLI exit 0 + result on stdout + empty stderr, or exit 1 + empty stdout + [Error]. Sampled except for the short token strings.",
    note="An abort or hang inside type_check is counted inconclusive (divergent programs are allowed to diverge); nesting beyond ~3000 parentheses exhausts the CLI's 16 MiB stack and is outside the explored bound.",
    ref="DESIGN.md section 3, C14"),
  "C15": dict(
